@@ -21,6 +21,8 @@ def handle (st : State) (line : String) : State × String :=
           ({ tz := tz, maxExec := me, prio := if pk == 0 then .linear else .constant }, "S ok")
       | none => (st, "bad-op")
   | "spec" :: rest => (st, specCmd rest)
+  | "select" :: rest => (st, selectCmd selectP rest)
+  | "selectp" :: rest => (st, selectCmd selectpP rest)
   | toks =>
       match runP op toks with
       | some o => let (st', out) := step st o; (st', showOut st' out)
